@@ -1252,6 +1252,13 @@ def list_extend(self, st, lst, view):
     st.assume(z3.ForAll([i], z3.Implies(i < n0, z3.Select(arr, pos(i)) == z3.Select(arr0, pos(i)))))
     st.assume(z3.ForAll([i], z3.Implies(z3.And(n0 <= i, i < n0 + m), z3.Select(arr, pos(i))
                                         == self.coerce(self.guess_tuple(view.at(i - n0), st), lst.t.elt, st).z)))
+    mp = getattr(view, "member_pred", None)
+    if mp is not None:
+        # the source enumerates a set / the keys of a dict: every appended item is a member (stated on the destination array,
+        # whose reads are usable patterns -- the enumeration itself is a z3 sequence, over which no solver instantiates)
+        lo = n0 if zero_off else off + n0          # absolute positions, so that the array read is a usable pattern
+        st.assume(z3.ForAll([i], z3.Implies(z3.And(lo <= i, i < lo + m), mp(z3.Select(arr, i))),
+                            patterns=[z3.Select(arr, i)]))
     self.list_set_arr(st, lst, arr)
     self.list_set_len(st, lst, n0 + m)
 
